@@ -1,0 +1,175 @@
+//go:build verif
+
+// Contracts for the verification machinery in /verif (comment-only file; compiled only with -tags verif).
+package inference
+
+//@ method ExplainedBool Val dispatch
+//@ method conflictHandler AddSingleAssertionConflict log
+//@ method conflictHandler AddOverconstraintConflict log
+
+//@ -- ebVal: the truth value an explanation stands for, by its dynamic type
+//@ define (ebVal x) (or (is x TrueBecauseShallowConstraint) (is x TrueBecauseDeepConstraint) (is x TrueBecauseAnnotation) (is x ExplainedTrue))
+//@ define (ebKnown x) (or (ebVal x) (is x FalseBecauseShallowConstraint) (is x FalseBecauseDeepConstraint) (is x FalseBecauseAnnotation) (is x ExplainedFalse))
+
+//@ func (ExplainedTrue).Val
+//@ prop C05 C10
+//@ ensures always-true (= result true)
+
+//@ func (ExplainedFalse).Val
+//@ prop C05 C10
+//@ ensures always-false (= result false)
+
+//@ -- The inferred map: mapping is an ordered map from sites to *DeterminedVal / *UndeterminedVal.
+//@ define (imHas i s) (mapin i.mapping.inner s)
+//@ define (imVal i s) (. (mapget i.mapping.inner s) Value)
+//@ define (isDet v) (is v *DeterminedVal)
+//@ define (isUndet v) (is v *UndeterminedVal)
+//@ define (detBool v) (. (as v *DeterminedVal) Bool)
+//@ define (undet v) (as v *UndeterminedVal)
+//@ define (valOK v) (or
+//@   (and (isDet v) (not (= (as v *DeterminedVal) nil)) (ebKnown (detBool v)))
+//@   (and (isUndet v) (not (= (undet v) nil)) (omOK (. (undet v) Implicates)) (omOK (. (undet v) Implicants))))
+//@ define (imOK i) (and (not (= i nil)) (omOK i.mapping) (forall ((s primitiveSite)) (=> (imHas i s) (valOK (imVal i s)))))
+//@ -- det: 0 = absent, 1 = undetermined, 2 = nilable (true), 3 = nonnil (false)
+//@ define (det i s) (ite (not (imHas i s)) 0 (ite (isUndet (imVal i s)) 1 (ite (ebVal (detBool (imVal i s))) 2 3)))
+
+//@ func (*InferredMap).Load
+//@ prop C05 C10
+//@ nopanic
+//@ requires (imOK i)
+//@ modifies (obj i.mapping) (map i.mapping.inner)
+//@ ensures unchanged (and (heap-unchanged (obj i.mapping)) (heap-unchanged (map i.mapping.inner)))
+//@ ensures found-iff (= ok (imHas i site))
+//@ ensures value-stored (= value (ite ok (imVal i site) (zero InferredVal)))
+
+//@ func (*InferredMap).StoreDetermined
+//@ prop C05 C10
+//@ nopanic
+//@ requires (and (imOK i) (ebKnown value))
+//@ modifies (obj i.mapping) (map i.mapping.inner) (elems i.mapping.Pairs) (obj (omPair i.mapping 0))
+//@ ensures ok-after (imOK i)
+//@ ensures determined (and (imHas i site) (isDet (imVal i site)) (= (detBool (imVal i site)) value))
+//@ ensures others-kept (forall ((t primitiveSite)) (=> (not (= t site)) (and (= (imHas i t) (old (imHas i t))) (=> (imHas i t) (= (imVal i t) (old (imVal i t)))))))
+
+//@ method go.uber.org/nilaway/annotation.ProducingAnnotationTrigger Kind fn
+//@ method go.uber.org/nilaway/annotation.ProducingAnnotationTrigger UnderlyingSite fn
+//@ method go.uber.org/nilaway/annotation.ConsumingAnnotationTrigger Kind fn
+//@ method go.uber.org/nilaway/annotation.ConsumingAnnotationTrigger UnderlyingSite fn
+
+//@ -- site / fullTrigger are used as functions of their arguments (they read the pass and the position cache,
+//@ -- which the engine never writes); their bodies are the subject of C15, not of C05.
+//@ func (*primitivizer).site
+//@ pure
+//@ nobody
+//@ func (*primitivizer).fullTrigger
+//@ pure
+//@ nobody
+
+//@ -- implOf: an expression of the type of the per-site implication lists (used only to name their heaps in frames)
+//@ define (implOf i) (. (undet (imVal i (zero primitiveSite))) Implicates)
+//@ define (engOK e) (and (not (= e nil)) (imOK e.inferredMap) (not (isnil e.diagnosticEngine)) (not (= e.primitive nil)))
+//@ define (verdict x) (ite (ebVal x) 2 3)
+//@ -- a determined site is never overwritten or dropped (also the engine half of C10)
+//@ define (determinedKept e) (forall ((t primitiveSite)) (=> (old (>= (det e.inferredMap t) 2))
+//@    (and (= (det e.inferredMap t) (old (det e.inferredMap t))) (= (imVal e.inferredMap t) (old (imVal e.inferredMap t))) (= (detBool (imVal e.inferredMap t)) (old (detBool (imVal e.inferredMap t)))))))
+//@ define (sameEngine e) (and (= e.inferredMap (old e.inferredMap)) (= e.diagnosticEngine (old e.diagnosticEngine)) (= e.primitive (old e.primitive)))
+
+//@ func (*InferredMap).StoreImplication
+//@ prop C05
+//@ nobody
+//@ requires (and (imOK i) (<= (det i from) 1) (<= (det i to) 1))
+//@ modifies (obj i.mapping) (map i.mapping.inner) (elems i.mapping.Pairs) (obj (omPair i.mapping 0)) (obj (implOf i)) (map (. (implOf i) inner)) (elems (. (implOf i) Pairs)) (obj (omPair (implOf i) 0))
+//@ ensures ok-after (imOK i)
+//@ ensures edge-stored (and (= (det i from) 1) (= (det i to) 1) (mapin (. (undet (imVal i from)) Implicates inner) to) (mapin (. (undet (imVal i to)) Implicants inner) from))
+//@ ensures determined-kept (forall ((t primitiveSite)) (=> (old (>= (det i t) 2)) (and (= (det i t) (old (det i t))) (= (imVal i t) (old (imVal i t))) (= (detBool (imVal i t)) (old (detBool (imVal i t)))))))
+
+//@ func (*Engine).observeSiteExplanation
+//@ prop C05 C10
+//@ requires (and (engOK e) (ebKnown siteExplained))
+//@ modifies (obj e.inferredMap.mapping) (map e.inferredMap.mapping.inner) (elems e.inferredMap.mapping.Pairs) (obj (omPair e.inferredMap.mapping 0)) (obj (implOf e.inferredMap)) (map (. (implOf e.inferredMap) inner)) (elems (. (implOf e.inferredMap) Pairs)) (obj (omPair (implOf e.inferredMap) 0))
+//@ ensures ok-after (and (engOK e) (sameEngine e))
+//@ ensures determined-kept (determinedKept e)
+//@ ensures site-determined (>= (det e.inferredMap site) 2)
+//@ ensures fresh-verdict (=> (old (<= (det e.inferredMap site) 1)) (and (= (det e.inferredMap site) (verdict siteExplained)) (= (detBool (imVal e.inferredMap site)) siteExplained)))
+//@ ensures conflict-reported (=> (old (and (>= (det e.inferredMap site) 2) (not (= (det e.inferredMap site) (verdict siteExplained)))))
+//@    (and (= (calls "invoke:AddOverconstraintConflict") 1)
+//@         (ebVal (dyn 0 arg 0)) (not (ebVal (dyn 0 arg 1)))
+//@         (= (dyn 0 arg 0) (ite (ebVal siteExplained) siteExplained (old (detBool (imVal e.inferredMap site)))))
+//@         (= (dyn 0 arg 1) (ite (ebVal siteExplained) (old (detBool (imVal e.inferredMap site))) siteExplained))))
+//@ ensures agreement-is-silent (=> (old (= (det e.inferredMap site) (verdict siteExplained))) (and (= (calls "invoke:") 0) (= (calls "effect:") 0) (= (calls "StoreDetermined") 0)))
+//@ ensures no-conflict-without-disagreement (=> (old (<= (det e.inferredMap site) 1)) (= (calls "invoke:") 0))
+//@ loop 0 invariant inv (and (engOK e) (sameEngine e) (determinedKept e) (>= (det e.inferredMap site) 2) (= (det e.inferredMap site) (verdict siteExplained)) (= (detBool (imVal e.inferredMap site)) siteExplained))
+//@ loop 1 invariant inv (and (engOK e) (sameEngine e) (determinedKept e) (>= (det e.inferredMap site) 2) (= (det e.inferredMap site) (verdict siteExplained)) (= (detBool (imVal e.inferredMap site)) siteExplained))
+
+//@ func (*Engine).storeDeterminedAndActivateControlledTriggers
+//@ prop C05 C10
+//@ requires (and (engOK e) (ebKnown siteExplained) (<= (det e.inferredMap site) 1))
+//@ modifies (obj e.inferredMap.mapping) (map e.inferredMap.mapping.inner) (elems e.inferredMap.mapping.Pairs) (obj (omPair e.inferredMap.mapping 0)) (obj (implOf e.inferredMap)) (map (. (implOf e.inferredMap) inner)) (elems (. (implOf e.inferredMap) Pairs)) (obj (omPair (implOf e.inferredMap) 0))
+//@ ensures ok-after (and (engOK e) (sameEngine e))
+//@ ensures determined-kept (determinedKept e)
+//@ ensures site-determined (and (= (det e.inferredMap site) (verdict siteExplained)) (= (detBool (imVal e.inferredMap site)) siteExplained))
+
+//@ func (*Engine).activateControlledTriggers
+//@ prop C05 C10
+//@ requires (and (engOK e) (ebKnown siteExplained))
+//@ modifies (obj e.inferredMap.mapping) (map e.inferredMap.mapping.inner) (elems e.inferredMap.mapping.Pairs) (obj (omPair e.inferredMap.mapping 0)) (obj (implOf e.inferredMap)) (map (. (implOf e.inferredMap) inner)) (elems (. (implOf e.inferredMap) Pairs)) (obj (omPair (implOf e.inferredMap) 0))
+//@ ensures ok-after (and (engOK e) (sameEngine e))
+//@ ensures determined-kept (determinedKept e)
+//@ loop 0 invariant inv (and (engOK e) (sameEngine e) (determinedKept e))
+
+//@ define (pKind t) (mcall Kind (. t Producer Annotation))
+//@ define (cKind t) (mcall Kind (. t Consumer Annotation))
+//@ define (pSite t) (mcall UnderlyingSite (. t Producer Annotation))
+//@ define (cSite t) (mcall UnderlyingSite (. t Consumer Annotation))
+//@ define (isCond k) (or (= k annotation.Conditional) (= k annotation.DeepConditional))
+//@ define (triggerOK t) (and (not (= (. t Producer) nil)) (not (= (. t Consumer) nil)) (not (isnil (. t Producer Annotation))) (not (isnil (. t Consumer Annotation))))
+
+//@ func (*Engine).buildFromSingleFullTrigger
+//@ prop C05 C10
+//@ requires (engOK e)
+//@ modifies (obj e.inferredMap.mapping) (map e.inferredMap.mapping.inner) (elems e.inferredMap.mapping.Pairs) (obj (omPair e.inferredMap.mapping 0)) (obj (implOf e.inferredMap)) (map (. (implOf e.inferredMap) inner)) (elems (. (implOf e.inferredMap) Pairs)) (obj (omPair (implOf e.inferredMap) 0))
+//@ ensures ok-after (and (engOK e) (sameEngine e))
+//@ ensures determined-kept (determinedKept e)
+//@ ensures always-always-is-a-conflict (=> (and (= (pKind trigger) annotation.Always) (= (cKind trigger) annotation.Always))
+//@    (and (= (calls "invoke:AddSingleAssertionConflict") 1) (= (dyn 0 arg 0) trigger) (= (calls "observe") 0)))
+//@ ensures always-to-site-makes-consumer-nilable (=> (and (= (pKind trigger) annotation.Always) (isCond (cKind trigger)))
+//@    (and (= (calls "observeSiteExplanation") 1) (= (calls "invoke:") 0) (= (calls "observeImplication") 0)
+//@         (= (callarg "observeSiteExplanation" 0 1) (call |(*primitivizer).site| e.primitive (cSite trigger) (= (cKind trigger) annotation.DeepConditional)))
+//@         (is (callarg "observeSiteExplanation" 0 2) TrueBecauseShallowConstraint)
+//@         (= (. (as (callarg "observeSiteExplanation" 0 2) TrueBecauseShallowConstraint) ExternalAssertion) (call |(*primitivizer).fullTrigger| e.primitive trigger))))
+//@ ensures site-to-always-makes-producer-nonnil (=> (and (isCond (pKind trigger)) (= (cKind trigger) annotation.Always))
+//@    (and (= (calls "observeSiteExplanation") 1) (= (calls "invoke:") 0) (= (calls "observeImplication") 0)
+//@         (= (callarg "observeSiteExplanation" 0 1) (call |(*primitivizer).site| e.primitive (pSite trigger) (= (pKind trigger) annotation.DeepConditional)))
+//@         (is (callarg "observeSiteExplanation" 0 2) FalseBecauseShallowConstraint)
+//@         (= (. (as (callarg "observeSiteExplanation" 0 2) FalseBecauseShallowConstraint) ExternalAssertion) (call |(*primitivizer).fullTrigger| e.primitive trigger))))
+//@ ensures site-to-site-is-an-implication (=> (and (isCond (pKind trigger)) (isCond (cKind trigger)))
+//@    (and (= (calls "observeImplication") 1) (= (calls "invoke:") 0) (= (calls "observeSiteExplanation") 0)
+//@         (= (callarg "observeImplication" 0 1) (call |(*primitivizer).site| e.primitive (pSite trigger) (= (pKind trigger) annotation.DeepConditional)))
+//@         (= (callarg "observeImplication" 0 2) (call |(*primitivizer).site| e.primitive (cSite trigger) (= (cKind trigger) annotation.DeepConditional)))
+//@         (= (callarg "observeImplication" 0 3) (call |(*primitivizer).fullTrigger| e.primitive trigger))))
+//@ ensures never-kinds-are-ignored (=> (or (= (pKind trigger) annotation.Never) (= (cKind trigger) annotation.Never))
+//@    (and (= (calls "observe") 0) (= (calls "invoke:") 0)))
+
+//@ func (*Engine).observeImplication
+//@ prop C05
+//@ requires (engOK e)
+//@ modifies (obj e.inferredMap.mapping) (map e.inferredMap.mapping.inner) (elems e.inferredMap.mapping.Pairs) (obj (omPair e.inferredMap.mapping 0)) (obj (implOf e.inferredMap)) (map (. (implOf e.inferredMap) inner)) (elems (. (implOf e.inferredMap) Pairs)) (obj (omPair (implOf e.inferredMap) 0))
+//@ ensures ok-after (and (engOK e) (sameEngine e))
+//@ ensures determined-kept (determinedKept e)
+//@ ensures nilable-producer-propagates-forward (=> (old (= (det e.inferredMap producerSite) 2))
+//@    (and (= (calls "observeSiteExplanation") 1) (= (calls "StoreImplication") 0)
+//@         (= (callarg "observeSiteExplanation" 0 1) consumerSite)
+//@         (is (callarg "observeSiteExplanation" 0 2) TrueBecauseDeepConstraint)
+//@         (= (. (as (callarg "observeSiteExplanation" 0 2) TrueBecauseDeepConstraint) InternalAssertion) assertion)
+//@         (= (. (as (callarg "observeSiteExplanation" 0 2) TrueBecauseDeepConstraint) DeeperExplanation) (old (detBool (imVal e.inferredMap producerSite))))))
+//@ ensures nonnil-producer-discards (=> (old (= (det e.inferredMap producerSite) 3)) (and (= (calls "observeSiteExplanation") 0) (= (calls "StoreImplication") 0)))
+//@ ensures nonnil-consumer-propagates-backward (=> (old (and (<= (det e.inferredMap producerSite) 1) (= (det e.inferredMap consumerSite) 3)))
+//@    (and (= (calls "observeSiteExplanation") 1) (= (calls "StoreImplication") 0)
+//@         (= (callarg "observeSiteExplanation" 0 1) producerSite)
+//@         (is (callarg "observeSiteExplanation" 0 2) FalseBecauseDeepConstraint)
+//@         (= (. (as (callarg "observeSiteExplanation" 0 2) FalseBecauseDeepConstraint) InternalAssertion) assertion)
+//@         (= (. (as (callarg "observeSiteExplanation" 0 2) FalseBecauseDeepConstraint) DeeperExplanation) (old (detBool (imVal e.inferredMap consumerSite))))))
+//@ ensures nilable-consumer-discards (=> (old (and (<= (det e.inferredMap producerSite) 1) (= (det e.inferredMap consumerSite) 2))) (and (= (calls "observeSiteExplanation") 0) (= (calls "StoreImplication") 0)))
+//@ ensures open-edge-is-stored (=> (old (and (<= (det e.inferredMap producerSite) 1) (<= (det e.inferredMap consumerSite) 1)))
+//@    (and (= (calls "StoreImplication") 1) (= (calls "observeSiteExplanation") 0)
+//@         (= (callarg "StoreImplication" 0 1) producerSite) (= (callarg "StoreImplication" 0 2) consumerSite) (= (callarg "StoreImplication" 0 3) assertion)))
